@@ -19,6 +19,27 @@ def loop():
     return _LOOP
 
 
+_VL = None
+
+
+def VL():
+    """The process-wide virtual loop (created lazily, after fork)."""
+    global _VL
+    if _VL is None:
+        from .aloop import VLoop
+        _VL = VLoop()
+    return _VL
+
+
+def install_virtual_loop():
+    """Make the library's sync facade (run_async_from_sync) run on the virtual loop."""
+    import threading
+    import statemachine.utils as u
+    from .aloop import VPolicy
+    asyncio.set_event_loop_policy(VPolicy(VL()))
+    u._cached_loop = threading.local()
+
+
 def reset_loops():
     """Call in freshly forked workers: never share event loops across processes."""
     global _LOOP
@@ -49,6 +70,7 @@ class Impl:
         self.cfg = cfg
         self.env = env or Env(built, plan=plan, deep=deep, results=results,
                               measure_depth=measure_depth)
+        self.env.flat_mode = (cfg.engine == "async")
         self.stored = stored
         self.start_value = start_value
         self.model = model
@@ -64,7 +86,14 @@ class Impl:
         env.flat = []
         CUR.env = env
         try:
-            if self.cfg.engine == "async" and self.cfg.driver == "inloop":
+            if self.cfg.engine == "async" and self.cfg.driver == "vinloop":
+                async def vco():
+                    r = fn()
+                    if inspect.isawaitable(r):
+                        r = await r
+                    return r
+                r = VL().run_until_complete(vco())
+            elif self.cfg.engine == "async" and self.cfg.driver == "inloop":
                 async def co():
                     r = fn()
                     if inspect.isawaitable(r):
@@ -277,7 +306,8 @@ def typed_vals(vals, salt=0):
 def leak(sm, expected_queue=0):
     eng = sm._engine
     q = len(eng._external_queue)
-    locked = eng._processing.locked()
+    pr = eng._processing
+    locked = pr.locked() if hasattr(pr, "locked") else bool(pr)
     if q != expected_queue or locked:
         return (f"engine left dirty after a completed call: queue length {q} (expected "
                 f"{expected_queue}), lock held {locked}")
